@@ -272,6 +272,9 @@ PRESERVING = [
         "            if _state['err'] is not None:\n"
         "                raise _state['err']\n\n    elif axis is None:")],
      'callbacks store by index and set a threading.Event when everything is in'),
+    ('p_object_defaults_changed', [(O, "                'monotonicity_threshold': .8,\n                'min_n_cycles': 3\n            }\n        elif thresholds is None and burst_method == 'amp':",
+                                    "                'monotonicity_threshold': .7,\n                'min_n_cycles': 2\n            }\n        elif thresholds is None and burst_method == 'amp':")],
+     'the objects choose other default thresholds (which defaults is not part of the property)'),
     ('p_private_keys', [(O, "        self.df_features = compute_features(\n            self.sig,",
                          "        self.__dict__['_n_fits'] = self.__dict__.get('_n_fits', 0) + 1\n        self.df_features = compute_features(\n            self.sig,")],
      'object keeps a private fit counter'),
